@@ -157,6 +157,26 @@ class ConstEval:
         out = []
         env: Dict[str, Any] = dict(preset or {})
 
+        def inner(e, guards, st):
+            """maximal constant sub-expressions (tables, vectors) written in place inside a non-constant expression"""
+            if isinstance(e, (ast.Lambda, ast.ListComp, ast.GeneratorExp, ast.SetComp, ast.DictComp)):
+                return
+            if not isinstance(e, (ast.Name, ast.Constant, ast.Attribute)):
+                try:
+                    v = self.expr(e, env, func, 1)
+                    if isinstance(v, (list, tuple)) or hasattr(v, "shape"):
+                        out.append(("<expression>", v, guards, st))
+                        return
+                except NotConst:
+                    pass
+                except Exception:
+                    pass
+            for c in ast.iter_child_nodes(e):
+                if isinstance(c, ast.expr):
+                    inner(c, guards, st)
+                elif isinstance(c, ast.keyword):
+                    inner(c.value, guards, st)
+
         def walk(stmts, guards):
             for st in stmts:
                 if isinstance(st, ast.Assign) and len(st.targets) == 1 and isinstance(st.targets[0], ast.Name):
@@ -164,9 +184,12 @@ class ConstEval:
                         v = self.expr(st.value, env, func, 1)
                     except NotConst:
                         env.pop(st.targets[0].id, None)
+                        inner(st.value, guards, st)
                         continue
                     env[st.targets[0].id] = v
                     out.append((st.targets[0].id, v, guards, st))
+                elif isinstance(st, (ast.Return, ast.Expr, ast.Assign, ast.AnnAssign, ast.AugAssign)) and getattr(st, "value", None) is not None:
+                    inner(st.value, guards, st)
                 elif isinstance(st, ast.If):
                     t = unparse(st.test)
                     walk(st.body, guards + ((t, True),))
